@@ -111,6 +111,14 @@ check("C08", "TLA+ literal recogniser NumLit (DFA checked against a declarative 
       "to length 5-6 over a reduced alphabet; ALL strings up to length 3 (quick) / 4 (thorough, plus 60 000 longer random ones) "
       "over the 18-symbol alphabet of the statement and a list of boundary cases are read through real files and TLC "
       "evaluates NumLit!Class on every one (about 100 000 observations in the quick tier).", TRUSTED, "DESIGN.md 4 C08")
+check("C04", "TLA+ line grammar HeaderLine!Parse; TLC proves Parse(Format(f, pads), sec) = Expected(f) on 8.4 million laid-out "
+      "lines of the abstract pools; ~50 000 concrete lines passed to lasio.reader.read_header_line and validated by TLC "
+      "against HeaderLine!Parse (Trace_HeaderLine)",
+      "Model checking + instance validation: the documented grammar (first period, unit run with the 'digits + one blank' "
+      "exception, last colon / first non-clock colon in ~Parameter, NAME : VALUE) is written as a TLA+ function on character "
+      "sequences; TLC proves it inverts formatting on every padding of every pooled field tuple in six section kinds, and "
+      "evaluates it on every concrete line given to the real parser, comparing the four stripped fields.", TRUSTED,
+      "DESIGN.md 4 C04")
 
 
 def main():
